@@ -2,6 +2,7 @@ import Capella.Lemmas.Query
 import Capella.Lemmas.QueryList
 import Capella.Lemmas.QuerySlice
 import Capella.Lemmas.QueryTable
+import Capella.Lemmas.QuerySave
 import Capella.Gen.Hier
 import Capella.Gen.HierRels
 
@@ -635,6 +636,51 @@ theorem backref_single_spec (l : List Nat) :
     | [_] => simp [noList]
     | _ :: _ :: _ => simp [noList]
 
+/-! ## queries in the same session after `save()` -/
+
+/-- `idcache_rebuild`: the index built by a walk lists exactly the typed elements walked — every
+`(element, type)` pair, each element once (buckets in order of first appearance, elements in
+document order). -/
+theorem rebuilt_index_exact (items : List (Nat × Str)) : FragExact (rebuildOf items) items :=
+  rebuildOf_exact items
+
+/-- `update_namespaces` re-creates the root element of a fragment exactly when the namespace prefixes
+the root declares differ, as a set, from `xmi`, `xsi` and the prefixes of the types that occur in the
+fragment — i.e. when the first element of a metamodel package was created or the last one deleted. -/
+theorem save_replaces_root_iff (declared : List Str) (items : List (Nat × Str)) :
+    needsNewRoot declared items = false ↔
+      ∀ s, s ∈ declared ↔ (s = "xmi".toList ∨ s = "xsi".toList ∨ ∃ it ∈ items, nsPrefix it.2 = s) := by
+  unfold needsNewRoot
+  rw [Bool.not_eq_false', sameSet_iff]
+  exact forall_congr' (fun s => by rw [mem_neededPrefixes])
+
+/-- After `save()` the type index is consistent with the trees again, whichever fragments had their
+root element replaced: a replaced fragment's index is rebuilt by a walk, an untouched fragment keeps
+an index that listed exactly its elements, and the fragments' elements together are the typed
+elements of the trees. -/
+theorem save_keeps_index_consistent (nodes : List Node) (frs : List SavedFragment)
+    (hkept : ∀ f ∈ frs, f.replaced = false → FragExact f.old f.items)
+    (hcover : (frs.flatMap (·.items)).Perm (typedItems nodes)) :
+    IndexConsistent nodes (savedIndex frs) :=
+  savedIndex_consistent' nodes frs hkept hcover
+
+/-- Hence a type search in the same session after `save()` (any types — the roots' types included —
+and any `below` anchor) returns exactly what the full scan of the live trees finds, nothing twice. -/
+theorem search_after_save_sound_complete (nodes : List Node) (frs : List SavedFragment)
+    (hkept : ∀ f ∈ frs, f.replaced = false → FragExact f.old f.items)
+    (hcover : (frs.flatMap (·.items)).Perm (typedItems nodes))
+    (xts : List Str) (below : Option Nat) :
+    (∀ i, i ∈ search nodes (savedIndex frs) xts below ↔ i ∈ scan nodes xts below) ∧
+      (search nodes (savedIndex frs) xts below).Nodup :=
+  ⟨fun i => search_sound_complete nodes _ (save_keeps_index_consistent nodes frs hkept hcover) xts below i,
+   search_no_duplicates nodes _ (save_keeps_index_consistent nodes frs hkept hcover) xts below⟩
+
+/-- The rebuild is needed: an index that still lists an element which is in no tree any more (the
+replaced root, if only its id were re-pointed) is not consistent, whatever else it contains. -/
+theorem stale_entry_breaks_consistency (nodes : List Node) (idx : Index) (xt : Str) (i : Nat)
+    (ho : nodes.length ≤ i) (hm : ∃ p ∈ idx, p.1 = xt ∧ i ∈ p.2) : ¬ IndexConsistent nodes idx :=
+  orphan_inconsistent nodes idx xt i ho hm
+
 -- Non-vacuity
 def exNodes : List Node :=
   [{ uid := "p".toList, xtype := "a:Pkg".toList },
@@ -684,5 +730,26 @@ example : (Gen.HierRels.rows.any (fun r => r.kind.linkStoring && !r.aslist)) = t
     (Gen.HierRels.rows.any (fun r => r.kind.isWrapper)) = true := by decide +kernel
 example : noList false [3, 4] = none ∧ noList false [3] = some (.one (some 3)) := by decide
 example : indexSortedB exIdx "a:Fn".toList = true := by decide
+
+-- save(): a requirement module (node 4, package `r`) was created below `p`; the root declared `xmi xsi a`
+def exSaved : List Node := exNodes ++ [{ uid := "m".toList, xtype := "r:Mod".toList, parent := some 0 }]
+example : typedItems exSaved = [(0, "a:Pkg".toList), (1, "a:Fn".toList), (2, "a:Fn".toList), (3, "a:Fn".toList), (4, "r:Mod".toList)] := by decide
+example : needsNewRoot ["a".toList, "xmi".toList, "xsi".toList] (typedItems exSaved) = true ∧
+    needsNewRoot ["a".toList, "xmi".toList, "xsi".toList] (typedItems exNodes) = false := by decide
+example : rebuildOf (typedItems exSaved) = exIdx ++ [("r:Mod".toList, [4])] := by decide
+example : savedIndex [⟨true, [("a:Pkg".toList, [99])], typedItems exSaved⟩] = exIdx ++ [("r:Mod".toList, [4])] := by decide
+example : search exSaved (savedIndex [⟨true, [], typedItems exSaved⟩]) ["a:Pkg".toList] none = [0] := by decide
+-- the hypotheses of `search_after_save_sound_complete` are satisfiable with a kept and a replaced fragment
+example : ∃ frs : List SavedFragment, frs.length = 2 ∧ (∃ f ∈ frs, f.replaced = false) ∧ (∃ f ∈ frs, f.replaced = true) ∧
+    (∀ f ∈ frs, f.replaced = false → FragExact f.old f.items) ∧ (frs.flatMap (·.items)).Perm (typedItems exSaved) := by
+  refine ⟨[⟨false, rebuildOf (itemsIn exSaved 0 4), itemsIn exSaved 0 4⟩, ⟨true, [], itemsIn exSaved 4 5⟩], rfl,
+    ⟨_, List.mem_cons_self, rfl⟩, ⟨_, List.mem_cons_of_mem _ List.mem_cons_self, rfl⟩, ?_, by decide⟩
+  intro f hf hr
+  simp only [List.mem_cons, List.not_mem_nil, or_false] at hf
+  rcases hf with rfl | rfl
+  · exact rebuildOf_exact _
+  · cases hr
+-- the stale root: index entry 99 is in no tree, and the search hands it out although the scan does not find it
+example : search exSaved [("a:Pkg".toList, [99])] ["a:Pkg".toList] none = [99] ∧ scan exSaved ["a:Pkg".toList] none = [0] := by decide
 
 end Capella.Props.C10
